@@ -331,6 +331,18 @@ theorem runQuery_total (o : Obj) (img : Bytes) (h : C01.ObjInv o img) (hlen : im
         rw [hres]
         exact ⟨_, rfl⟩
 
+  | swap i first second =>
+    simp only [TQ.runQuery]
+    cases hs : TQ.settle o i with
+    | none => exact ⟨_, rfl⟩
+    | some r =>
+      obtain ⟨o1, b⟩ := r
+      dsimp only
+      have hb := settle_sec h hlen hs
+      obtain ⟨b', hb', -⟩ := swap_symbols_total o.enc b hb.1 hb.2 first second
+      rw [hb']
+      exact ⟨_, rfl⟩
+
 /-- **queries_total**: load ANY byte string (shorter than 4 GiB), eagerly or lazily, from a string or
     file stream, with any address translation table, into any previous object: every table query on the
     resulting object returns — no read or write outside a buffer, no null dereference, no division by
